@@ -378,6 +378,16 @@ def _traversal(ctx: Ctx, rep: Report, f: Func) -> None:  # noqa: C901
     else:
         rep.violation(f.qualname, snippet(stores[0].ast), "some path through the loop body skips numbering the item", where(f, stores[0].ast))
     run_var = src(stores[0].ast.value)
+    # a nested group is numbered after its members: the number a block carries is the number the recursive call came back
+    # with (its last line), which is what orders blocks against the lines around them
+    rec = [n for n in cfg.live if n.kind == "stmt" and n.ast is not None and any(isinstance(x, ast.Call) and isinstance(x.func, ast.Attribute) and x.func.attr == f.name and src(x.func.value) in ("self", itemvar) for x in ast.walk(n.ast))]
+    if rec and body_start:
+        rep.instance()
+        early = [st for st in stores if any(r in cfg.reachable(st, avoid=lambda m: m is loop, labels_avoid=("exc",)) for r in rec)]
+        if early:
+            rep.violation(f.qualname, f"{snippet(early[0].ast, 40)} before {snippet(rec[0].ast, 50)}", "a nested group is given its number before its members are numbered: it carries the number of its first line, not of its last, so sorting by number puts lines that were inserted after it in front of it", where(f, early[0].ast), inp="group(); resequence(); insert an entry numbered inside a block; sort()")
+        else:
+            rep.ok(f"{f.qualname}: nested groups", "numbered after their members (the number the recursive call returned)", where=where(f, rec[0].ast))
     # running variable: initialised from start; returned
     rep.instance()
     init = defs.get(run_var, [])
